@@ -88,7 +88,7 @@ def run(ctx):
             return
         for i in range(n_ws):
             root = ctx.scratch(f"ws{i}")
-            ws = gen.gen_workspace(root, ctx.rng, allow_multiline=False)
+            ws = gen.gen_workspace(root, ctx.rng, allow_multiline=False, indirect_multi=True)
             materialize(ws)
             model = ws.model()
             db = vh.new_db()
